@@ -194,3 +194,36 @@ def rule_close(ctx, R):
             R.finding(b.fn, "closing-not-removed",
                       "a connection found Closing can be skipped instead of being removed (line %d): it stays registered (subscriptions, counts as a receiver) forever" % b.bb_line(p[-1]), b.loc(i),
                       witness=["bb%d %s" % (x, b.loc(x)) for x in p][:8])
+
+
+def rule_record(ctx, R):
+    """the connection's SubscriberInfo is dropped only when BOTH its channel set and its pattern
+    set are empty (or in unsubscribe_all, which sweeps both global maps first): a record dropped
+    while the other kind of subscription remains leaves the connection in the global maps with no
+    record -- later (P)UNSUBSCRIBE gets no acknowledgement, messages keep arriving, counts are off."""
+    n = 0
+    for fn, b in sorted(ctx.prog.bodies.items()):
+        if not fn.startswith(PS) or "::tests::" in fn or b.kind == "Closure":
+            continue
+        cdel = field_calls(b, {PM + "connections"}, r"HashMap::<u64, pubsub::SubscriberInfo>::remove(::<.*>)?$")
+        if not cdel:
+            continue
+        # emptiness tests of the two per-connection sets: block regions where the set is empty
+        empty_reg = {}
+        for kind in ("channels", "patterns"):
+            reg = set()
+            for i in field_calls(b, {SI + kind}, r"HashSet::<std::vec::Vec<u8>>::is_empty$"):
+                t = b.term(i)
+                sw = shared._follow_to_switch(b, t["t"], t["d"]["l"])
+                if sw:
+                    reg |= cfg.edge_dom_set(b, sw[0], sw[1]["o"])
+            empty_reg[kind] = reg
+        sweeps = all(field_calls(b, {PM + kind}, r"HashMap::<std::vec::Vec<u8>, std::collections::HashSet<u64>>::(iter_mut|values_mut|retain)(::<.*>)?$") for kind in ("channels", "patterns"))
+        for k, i in enumerate(cdel):
+            n += 1
+            both = i in empty_reg["channels"] and i in empty_reg["patterns"]
+            R.inst(fn, "record-removal#%d" % k, {"function": fn, "at": b.loc(i), "under_channels_empty": i in empty_reg["channels"], "under_patterns_empty": i in empty_reg["patterns"], "function_sweeps_both_global_maps": sweeps})
+            if not both and not sweeps:
+                R.finding(fn, "record-removal:not-under-both-empty",
+                          "%s drops the connection's subscription record (line %d) on a path where its channel set and its pattern set have not both been found empty: a client holding only the other kind of subscription loses its record while it is still listed in the global map" % (fn.split("::")[-1], b.bb_line(i)), b.loc(i))
+    R.floor("subscription_record_removals", n)
